@@ -58,6 +58,18 @@ func (ft *funcTrans) block(b *ssa.BasicBlock) {
 		st = ft.loopHeader(li, fwdPreds, st)
 	}
 	ft.curSt = st
+	if b.Index == 0 && ft.c != nil && ft.c.EntryCount != "" {
+		g := ft.c.EntryCount
+		srt, ok := w.P.Spec.Ghosts[g]
+		if !ok || srt != "Int" {
+			panic(unsupportedErr(fmt.Sprintf("entrycount %s: no ghost of sort Int with that name in the spec", g)))
+		}
+		h := "G_ghost." + g
+		w.heapSorts[h] = srt
+		old := w.heapSym(ft.curSt, h)
+		nw := ft.newHeapVersion(ft.curSt, h)
+		w.addFact(fmt.Sprintf("(= %s (+ %s 1))", nw, old))
+	}
 	// phis (non-header) and instructions
 	for _, in := range b.Instrs {
 		if phi, ok := in.(*ssa.Phi); ok {
